@@ -167,6 +167,8 @@ func workerMain(t *testing.T) {
 		replay(t, &job)
 	case "shrink":
 		shrink(t, &job)
+	case "hashes":
+		hashes(t, &job)
 	default:
 		t.Fatalf("unknown mode %q", job.Mode)
 	}
@@ -465,4 +467,49 @@ func replayOnce(t *testing.T, p *PropDef, rf *ReplayFile) ([]Violation, *RunResu
 	commonChecks(cc)
 	p.Check(cc)
 	return append(cc.Viol, res.Log.Viol...), res
+}
+
+// hashes runs the first job.Cases cases of a property and writes, per run, the
+// hash of its schedule and of its complete event log (determinism self-test).
+func hashes(t *testing.T, job *Job) {
+	p := props[job.Prop]
+	if p == nil {
+		t.Fatalf("unknown property %s", job.Prop)
+	}
+	var out []string
+	tier := Tier{Name: job.Tier}
+	for i := 0; i < job.Cases; i++ {
+		seed := simrt.Mix(simrt.Mix(job.Seed, propHash(job.Prop)), uint64(i))
+		r := NewRnd(seed)
+		c := p.Gen(r, tier)
+		if c.Cfg.Seed == 0 && c.Cfg.Replay == nil {
+			c.Cfg = swarmConfig(r, seed, 150)
+		}
+		scs := []*Scenario{c.Sc}
+		if c.Sweep {
+			scs = append(scs, sweepAt(c.Sc, 7), sweepAt(c.Sc, 23))
+		}
+		for _, sc := range scs {
+			res := runScenario(t, sc, c.Cfg)
+			h := fnv.New64a()
+			if res.Log != nil {
+				for k := range res.Log.Ev {
+					h.Write([]byte(res.Log.Ev[k].String()))
+				}
+			}
+			th := uint64(0)
+			steps := 0
+			if res.Out != nil {
+				th, steps = res.Out.TraceHash, res.Out.Steps
+			}
+			out = append(out, fmt.Sprintf("%d %016x %016x %d %d", i, th, h.Sum64(), steps, len(res.Survivors)))
+			if os.Getenv("DSIM_DUMP") != "" && i == 0 {
+				for _, l := range res.traceText(0) {
+					fmt.Println(l)
+				}
+			}
+		}
+	}
+	b, _ := json.Marshal(out)
+	os.WriteFile(job.Out, b, 0o644)
 }
